@@ -16,7 +16,7 @@ CONDS = [
          'position assigned by the real sibling walk (recovered via :nth-*(p) for p = 0..n+1, plus 2n+1 and -n+2) == '
          'reference position among element siblings / same-type siblings / siblings matching .x, from either end',
          'sibling layouts: all sequences over {li, li.x, p, p.x, text, comment} up to length 3 (quick) / 5 (thorough) '
-         'and over {li, p, text} up to length 5 / 8; containers: <ul> in HTML doc (all layouts); document top level, '
+         'and over {li, p, text} up to length 4 / 8; containers: <ul> in HTML doc (all layouts); document top level, '
          'detached <ul>, <ul> in XML doc (layouts up to length 3 / 4); body runs natively once the solver has fixed the indices',
          timeout={'quick': 100, 'thorough': 1500}, parts={'quick': 10, 'thorough': 16}),
     Cond('nth_detached_ok', 'parentless element (fake parent): position 1 from either end; a, b unbounded',
@@ -29,7 +29,7 @@ CONDS = [
          ':first-child, :last-child, :only-child, :first/last/only-of-type select (real select()) exactly what their '
          'An+B instances select and what the reference position designates',
          'same layout pool; containers <ul> and document top level', timeout={'quick': 60, 'thorough': 600},
-         parts={'quick': 4, 'thorough': 8}),
+         parts={'quick': 6, 'thorough': 12}),
 ]
 
 
